@@ -322,11 +322,24 @@ def sym_sorted(it, reverse=False, key=None):
     return [SymReal(t) if not T.is_const(t) else float(T.cval(t)) for t in ts]
 
 
-def sym_float(x=0.0):
-    if is_sym(x):
-        return x if isinstance(x, SymReal) else x._r()
-    import builtins
-    return builtins.float(x)
+class _FloatMeta(type):
+    def __instancecheck__(cls, obj):
+        import builtins
+        return isinstance(obj, builtins.float)
+
+    def __subclasscheck__(cls, sub):
+        import builtins
+        return issubclass(sub, builtins.float)
+
+
+class sym_float(float, metaclass=_FloatMeta):
+    """stand-in for the name `float`: float(x) passes proxies through; isinstance(x, float) keeps working"""
+
+    def __new__(cls, x=0.0):
+        if is_sym(x):
+            return x if isinstance(x, SymReal) else x._r()
+        import builtins
+        return builtins.float(x)
 
 
 def sym_ite(c, a, b):
